@@ -189,8 +189,9 @@ def run_c10(ctx, prop):
     hist = {"variants": 0, "java_skipped": 0}
     distinct = set()
     flagsets = [[], ["--no-typed-objects"], ["--allow-undefined-behavior"]]
-    for i in range(n):
-        base = gen.gen_case(ctx.rng, opts, cid=f"C10-{ctx.seed}-{i}")
+    fixed = [gen.nesting_case(d, k, cid="C10-nest") for d in (2, 3, 4) for k in range(0, d + 1)]
+    for i in range(n + len(fixed)):
+        base = fixed[i] if i < len(fixed) else gen.gen_case(ctx.rng, opts, cid=f"C10-{ctx.seed}-{i}")
         variants = [("orig", base), ("permuted", permute_decls(base, ctx.rng)), ("merged", redistribute(base, ctx.rng))]
         for vname, case in variants:
             with C.Scratch() as tmp:
